@@ -150,6 +150,27 @@ def check_program(prog: Dict[str, Any], acc: Acc, flags=None):
         st = bp.stats(prog["circuit"])
         if st["explicit"] == 0 and st["blocks"] == 0:
             check_monotonic(modified, measures, acc, case, require_overlap_free=True)
+        elif st["explicit"] == 0 and all(float(m.duration) > TOL for m in measures):
+            # nested, implicitly sequenced: "free of channel overlaps" is only meaningful when measurements have a length (two
+            # zero-length measurements on one channel never overlap, whatever their order)
+            acc.count("monotonic_candidates_with_nesting")
+            sub = Acc()
+            check_monotonic(modified, measures, sub, case, require_overlap_free=True)
+            acc.merge_counts(sub.counters)
+            if sub.findings:
+                # Is the circuit scheduled exactly as the placement rule prescribes (every time equals the reference model's)?  Then
+                # the order defect is inherent to the rule (a multi-qubit sub-circuit follows ONE predecessor, its measurements on the
+                # other qubits may come before later-indexed ones without overlapping them): known finding.  Otherwise something
+                # placed an operation differently: violation.
+                stats: Dict[str, int] = {}
+                top_reps = M.reps_of(M.MNode(is_block=True, reps=prog["circuit"].get("reps", 1)), ctx.S)
+                unrolled_model = M.unroll(built.top.mnodes, top_reps, ctx.S, stats)
+                ops_m = modified.operations
+                lib = common.records_lib(ops_m, snap.shadow_times(ops_m))
+                only_a, only_b = snap.multiset_diff(lib, common.records_model(unrolled_model, ctx.S))
+                inherent = (not (only_a or only_b) or bool(stats.get("unroll_degenerate"))) and not built.link_violations
+                for f in sub.findings:
+                    acc.finding(f["sig"] + ("/nested-placement-rule" if inherent else ""), f["what"], f["case"], f["detail"])
         qs = [m.qubit_index for m in measures]
         product = 1
         flags["nontrivial"] = interleaved(qs) and (st["depth"] >= 2 or _product(prog["circuit"], ctx.S) >= 4)
